@@ -116,25 +116,32 @@ def replay_fit(model, pattern=("ok", "ok", "ok", "ok"), filt=True, window=None, 
     if len(keep) < 2 or keep["Pressure"].isna().any():
         return False, {"what": "too few usable rows for a concrete replay"}
     imax, inmax = 5500.0, 1e5
-    with warnings.catch_warnings():
-        warnings.simplefilter("ignore")
-        try:
-            res = fit_production_pressure(data, pvt, 4000.0, filter_window_size=window, pressure_imax=imax, inplace_max=inmax,
-                                          filter_zero_prod_days=filt, n_iter=3)
-        except Exception as ex:  # noqa: BLE001
-            return True, {"what": f"fit_production_pressure raised {ex!r} on {len(keep)} usable rows of {len(data)} "
-                                  f"(rows without production or pressure must be excluded)", "inputs": {"pattern": list(pattern)}}
-    p = res.params
+    problems = []
     n = len(keep)
     cum = np.cumsum(keep["Gas"].to_numpy())
     want = {"tau": (30.0, 2.0 * (n - 1)), "M": (cum[-2], inmax), "p_initial": (keep["Pressure"].max(), imax)}
-    problems = []
-    for k, (lo, hi) in want.items():
-        if abs(p[k].min - lo) > 1e-9 * (1 + abs(lo)) or abs(p[k].max - hi) > 1e-9 * (1 + abs(hi)):
-            problems.append(f"{k} limits [{p[k].min!r}, {p[k].max!r}] vs declared [{lo!r}, {hi!r}]")
-        if not (p[k].min - 1e-9 <= p[k].value <= p[k].max + 1e-9):
-            problems.append(f"{k} = {p[k].value!r} outside its limits")
-    return bool(problems), {"what": "; ".join(problems) or "limits as declared, fitted values inside", "inputs": {"pattern": list(pattern)}}
+    # first guesses of the initial pressure above and below the highest frac-face pressure (the declared limits do not
+    # depend on the guess)
+    for guess in (4000.0, max(float(keep["Pressure"].max()) - 700.0, 100.0)):
+        with warnings.catch_warnings():
+            warnings.simplefilter("ignore")
+            try:
+                res = fit_production_pressure(data, pvt, guess, filter_window_size=window, pressure_imax=imax, inplace_max=inmax,
+                                              filter_zero_prod_days=filt, n_iter=3)
+            except Exception as ex:  # noqa: BLE001
+                return True, {"what": f"fit_production_pressure raised {ex!r} on {len(keep)} usable rows of {len(data)} "
+                                      f"(rows without production or pressure must be excluded)", "inputs": {"pattern": list(pattern)}}
+        p = res.params
+        for k, (lo, hi) in want.items():
+            if abs(p[k].min - lo) > 1e-9 * (1 + abs(lo)) or abs(p[k].max - hi) > 1e-9 * (1 + abs(hi)):
+                problems.append(f"first guess {guess}: {k} limits [{p[k].min!r}, {p[k].max!r}] vs declared [{lo!r}, {hi!r}]")
+            if not (p[k].min - 1e-9 <= p[k].value <= p[k].max + 1e-9):
+                problems.append(f"first guess {guess}: {k} = {p[k].value!r} outside its limits")
+        if p["p_initial"].value < keep["Pressure"].max() - 1e-9:
+            problems.append(f"first guess {guess}: fitted p_initial {p['p_initial'].value!r} below the highest frac-face pressure {keep['Pressure'].max()!r}")
+        if problems:
+            break
+    return bool(problems), {"what": "; ".join(problems[:3]) or "limits as declared, fitted values inside", "inputs": {"pattern": list(pattern)}}
 
 
 def replay_obj(model):
@@ -387,6 +394,13 @@ def concrete_eq(x, v):
     from ..sx.sym import concrete
     c = concrete(x)
     return c is not None and c == v
+
+
+# concrete replays run on the real code when the changed code uses something the engine does not model (harness.finish)
+_OK19 = ["ok"] * 19
+FALLBACK = [(replay_fit, {"pattern": _OK19}), (replay_fit, {"pattern": _OK19, "window": 1}), (replay_fit, {"pattern": ["ok", "nan"] + _OK19}),
+            (replay_fit, {"pattern": ["ok", "zero"] + _OK19, "window": 1}), (replay_fit, {"pattern": ["ok", "nan"] + _OK19, "window": 1}),
+            (replay_fit, {"pattern": _OK19, "pvt_desc": True}), (replay_fit, {"pattern": _OK19, "filt": False}), (replay_obj, {}), (replay_obj_second, {})]
 
 
 def jobs(tier):
